@@ -253,7 +253,7 @@ func (rb *Buffer) Write(p []byte) (n int, err error) {
 // WriteByte writes one byte into buffer.
 func (rb *Buffer) WriteByte(c byte) error {
 	if rb.Available() < 1 {
-		rb.grow(1)
+		rb.grow(rb.size + 1)
 	}
 	rb.buf[rb.w] = c
 	rb.w++
